@@ -1112,26 +1112,36 @@ def _build_component(case):
 
 
 def _pack_component(comp):
-    import msgpack
+    """Every component is written through BinaryCIFFile.write (wrapped into the missing
+    outer levels), so that a failure to serialise is raised by biotite itself."""
+    from biotite.structure.io.pdbx import BinaryCIFBlock, BinaryCIFCategory, BinaryCIFColumn, BinaryCIFData, BinaryCIFFile
 
-    from biotite.structure.io.pdbx import BinaryCIFFile
-
-    if isinstance(comp, BinaryCIFFile):
-        buf = io.BytesIO()
-        comp.write(buf)
-        return buf.getvalue()
-    return msgpack.packb(comp.serialize(), use_bin_type=True, default=_np_default)
+    if isinstance(comp, BinaryCIFData):
+        comp = BinaryCIFColumn(comp)
+    if isinstance(comp, BinaryCIFColumn):
+        comp = BinaryCIFCategory({"c0": comp})
+    if isinstance(comp, BinaryCIFCategory):
+        comp = BinaryCIFBlock({"cat": comp})
+    if isinstance(comp, BinaryCIFBlock):
+        comp = BinaryCIFFile({"blk": comp})
+    buf = io.BytesIO()
+    comp.write(buf)
+    return buf.getvalue()
 
 
 def _unpack_component(level, blob):
-    import msgpack
+    from biotite.structure.io.pdbx import BinaryCIFFile
 
-    from biotite.structure.io.pdbx import BinaryCIFBlock, BinaryCIFCategory, BinaryCIFColumn, BinaryCIFData, BinaryCIFFile
-
+    f = BinaryCIFFile.read(io.BytesIO(blob))
     if level == "file":
-        return BinaryCIFFile.read(io.BytesIO(blob))
-    cls = {"data": BinaryCIFData, "column": BinaryCIFColumn, "category": BinaryCIFCategory, "block": BinaryCIFBlock}[level]
-    return cls.deserialize(msgpack.unpackb(blob, use_list=True, raw=False))
+        return f
+    if level == "block":
+        return f["blk"]
+    if level == "category":
+        return f["blk"]["cat"]
+    if level == "column":
+        return f["blk"]["cat"]["c0"]
+    return f["blk"]["cat"]["c0"].data
 
 
 def _columns_of(level, comp, names):
@@ -1181,6 +1191,7 @@ def _enc_names(encoding):
 
 
 def run_compress(case):
+    from biotite.file import SerializationError
     from vlib.sandbox import run_sandboxed
 
     o = Outcome()
@@ -1205,7 +1216,7 @@ def run_compress(case):
             o.fail("compress_terminates", "compress() did not return within 8 s")
             return o
         if status == "exc":
-            if unrep and value[0] in REJECTION_NAMES:
+            if unrep and value[0] in REJECTION_NAMES | {"SerializationError"}:
                 o.label("outcome=rejected:" + value[0])
                 o.mark_nontrivial()
                 return o
@@ -1218,7 +1229,7 @@ def run_compress(case):
     elif unrep:
         try:
             res = _compress_payload(case)
-        except REJECTIONS as e:
+        except REJECTIONS + (SerializationError,) as e:
             o.label("outcome=rejected:" + type(e).__name__)
             o.mark_nontrivial()
             return o
@@ -1322,7 +1333,13 @@ def st_compress_float_segs(dtype, tier, allow_nonfinite):
     wide = sci(-30, 30)
     special = st.sampled_from([0.0, -0.0, 1.0, -1.0, 0.5, 1e-5, 1e5, 2147.483647, 21474836.47, 1e-30, 1e30, 123456.789])
     nonfinite = st.sampled_from([math.nan, math.inf, -math.inf])
-    flavour = st.sampled_from(["coords", "coords", "cents", "generic", "generic", "wide", "mixed"])
+    # needs more than 18 decimals: the fixed-point factor leaves the 64-bit integer range
+    tiny = st.tuples(st.integers(1, 999), st.integers(19, 30)).map(lambda t: float(f"{t[0]}e-{t[1]}"))
+    # fixed-point images at the int32 limits (the partner values force 0..3 decimals)
+    edge = st.sampled_from(
+        [2147483648.0, 2147483647.0, -2147483648.0, -2147483649.0, 2147483.648, 2147483.647, -2147483.648, 21474836.47, 21474836.48, 1.0, 3.0, 0.5, 0.25, 0.001]
+    )
+    flavour = st.sampled_from(["coords", "coords", "cents", "generic", "generic", "wide", "mixed", "tiny", "edge"])
 
     def segs_for(fl):
         if fl == "coords":
@@ -1333,6 +1350,10 @@ def st_compress_float_segs(dtype, tier, allow_nonfinite):
             pairs = [(8, generic), (2, special)]
         elif fl == "wide":
             pairs = [(7, wide), (2, special), (1, generic)]
+        elif fl == "tiny":
+            pairs = [(9, tiny), (1, st.just(0.0))]
+        elif fl == "edge":
+            pairs = [(9, edge), (1, coords)]
         else:
             pairs = [(3, coords), (3, generic), (2, wide), (2, special)]
         if allow_nonfinite:
@@ -1613,7 +1634,7 @@ SUBS = [
         "int_chain",
         st_int_chain_case,
         run_chain,
-        quick=2400,
+        quick=2000,
         thorough=100000,
         rule="length >= 3, >= 2 distinct values and >= 2 encodings, or an element at a type boundary",
         clauses="decode(encode(x)) == x exactly for every integer chain (inferred and explicit parameters); encodings survive serialisation",
@@ -1622,7 +1643,7 @@ SUBS = [
         "float_chain",
         st_float_chain_case,
         run_chain,
-        quick=1800,
+        quick=1500,
         thorough=70000,
         rule="as int_chain; non-finite elements count as boundary",
         clauses="FixedPoint within half a step, IntervalQuantization by the interval rules, ByteArray bit-identical; then any integer chain",
@@ -1631,7 +1652,7 @@ SUBS = [
         "string_chain",
         st_string_chain_case,
         run_chain,
-        quick=1000,
+        quick=800,
         thorough=40000,
         rule="length >= 3, >= 2 distinct strings, nested data/offset chains",
         clauses="StringArray with nested chains returns the strings exactly",
@@ -1640,7 +1661,7 @@ SUBS = [
         "unrepresentable",
         st_unrepresentable_case,
         run_chain,
-        quick=1300,
+        quick=1000,
         thorough=50000,
         rule="the first encoding cannot hold a value or parameter of the input",
         clauses="values the target representation cannot hold are rejected or kept losslessly, never silently altered",
@@ -1649,7 +1670,7 @@ SUBS = [
         "compress",
         st_compress_case,
         run_compress,
-        quick=1200,
+        quick=1000,
         thorough=40000,
         rule="a column of length >= 3 with >= 2 distinct values for which a chain of >= 2 encodings was chosen, or boundary/non-finite elements",
         clauses="compress() of data/column/category/block/file: ints, strings, masks exact; finite floats within the relative tolerance; non-finite lossless or rejected; terminates",
@@ -1658,7 +1679,7 @@ SUBS = [
         "serialize",
         st_serialize_case,
         run_serialize,
-        quick=500,
+        quick=400,
         thorough=15000,
         rule=">= 2 columns with a mask or a chain of >= 2 encodings",
         clauses="Data/Column(mask)/Category/Block/File written to msgpack and read back compare equal, arrays and masks equal",
